@@ -432,6 +432,62 @@ Proof.
     + intro Ha. apply pm_step_clause_2612; assumption.
 Qed.
 
+(* ---- and to every record of a recorded run ---------------------------------------------------------- *)
+Lemma pm_step_bad f cf st acts : ps_bad (pm_step_gen f cf st acts) = false -> ps_bad st = false.
+Proof.
+  unfold pm_step_gen.
+  repeat match goal with
+         | |- context [match ?x with _ => _ end] => destruct x
+         end; cbn; auto; discriminate.
+Qed.
+
+Lemma pm_reset_bad cf st : ps_bad (pm_reset cf st) = false -> ps_bad st = false.
+Proof. unfold pm_reset. destruct (ps_starts st); cbn; auto; discriminate. Qed.
+
+Lemma p_do_call_bad f cf k m c r m' :
+  do_call (pacman_sim_gen f cf) k m c = (r, m') -> ps_bad (m_sim m') = false -> ps_bad (m_sim m) = false.
+Proof.
+  intros E H. destruct (do_call_sim_reach (pacman_sim_gen f cf) k m c r m' E) as [Q|[Q|[l Q]]].
+  - rewrite <- Q. exact H.
+  - cbn [pacman_sim_gen sim_reset] in Q. eapply pm_reset_bad, p_greach_bad; [exact Q|exact H].
+  - cbn [pacman_sim_gen sim_step] in Q. eapply pm_step_bad, p_greach_bad; [exact Q|exact H].
+Qed.
+
+Lemma prun_snap_bad f cf k cs : forall m,
+  ps_bad (m_sim (snd (prun_snap (pacman_sim_gen f cf) k m cs))) = false -> ps_bad (m_sim m) = false.
+Proof.
+  induction cs as [|c cs IH]; intros m H; cbn [prun_snap] in H; [exact H|].
+  destruct (do_call (pacman_sim_gen f cf) k m c) as [r m1] eqn:E.
+  specialize (IH m1).
+  destruct (prun_snap (pacman_sim_gen f cf) k m1 cs) as [rs m2]. cbn [snd] in *.
+  eapply p_do_call_bad; [exact E|]. apply IH, H.
+Qed.
+
+Definition rec_ok (cf : pcfg) (x y : gstate * Z) : Prop :=
+  (fst y = fst x /\ snd y = snd x) \/ snd y = 0 \/
+  (shares_b cf (fst y) = false /\
+   (pac_active cf (fst x) = true ->
+    snd y = if pac_active cf (fst y) then snd x + 1 else snd x)).
+
+Fixpoint chain {X} (R : X -> X -> Prop) (x : X) (l : list X) : Prop :=
+  match l with [] => True | y :: l' => R x y /\ chain R y l' end.
+
+Theorem prun_snap_chain f cf k cs : forall m,
+  pac_not_baddie cf ->
+  ps_bad (m_sim (snd (prun_snap (pacman_sim_gen f cf) k m cs))) = false ->
+  chain (rec_ok cf) (ps_grid (m_sim m), ps_count (m_sim m))
+        (map snd (fst (prun_snap (pacman_sim_gen f cf) k m cs))).
+Proof.
+  induction cs as [|c cs IH]; intros m NB H; cbn [prun_snap]; [exact I|].
+  pose proof (prun_snap_bad f cf k (c :: cs) m H) as Hm. cbn [prun_snap] in H.
+  destruct (do_call (pacman_sim_gen f cf) k m c) as [r m1] eqn:E.
+  specialize (IH m1 NB). pose proof (prun_snap_bad f cf k cs m1) as H1.
+  destruct (prun_snap (pacman_sim_gen f cf) k m1 cs) as [rs m2]. cbn [fst snd map chain] in *.
+  specialize (H1 H). split; [|exact (IH H)].
+  destruct (pacman_call_clauses f cf k m c r m1 NB E Hm H1) as [[A B]|[[A B]|[l (A & B & C)]]];
+    unfold rec_ok; cbn [fst snd]; auto.
+Qed.
+
 (* along the managers' reachability relation of the simulation (steps, getters, resets):
    step_count never decreases between resets -- stated per transition above; here the reset clause for
    the packaged simulation record *)
